@@ -44,7 +44,8 @@ func c09ShedRun(r *zsim.Run) {
 	timex.ZsimReset()
 	o := r.Ops
 	f := r.Fault
-	window := zsim.Pick(o, time.Second, 5*time.Second, 500*time.Millisecond)
+	// (bucket lengths that divide a second, that do not - 300ms, 60ms, 70ms - and buckets longer than a second)
+	window := zsim.Pick(o, time.Second, 5*time.Second, 500*time.Millisecond, 3*time.Second, 700*time.Millisecond, 15*time.Second)
 	buckets := zsim.Pick(o, 10, 50, 5)
 	threshold := int64(900)
 	var overloadReads []time.Duration
@@ -72,7 +73,7 @@ func c09ShedRun(r *zsim.Run) {
 	sh := NewAdaptiveShedder(WithWindow(window), WithBuckets(buckets), WithCpuThreshold(threshold)).(*adaptiveShedder)
 	created := r.Now()
 	bucketDur := window / time.Duration(buckets)
-	perSecond := int64(time.Second / bucketDur)
+	perSecond := float64(time.Second) / float64(bucketDur) // buckets per second, as the statement has it: not necessarily whole
 	r.Logf("shedder window=%v buckets=%d created=%v", window, buckets, created)
 	var passes []c09Pass
 	low, high := int64(0), int64(0) // bounds on the in-flight count
@@ -117,7 +118,7 @@ func c09ShedRun(r *zsim.Run) {
 				minRt = avg
 			}
 		}
-		return int64(math.Max(1, maxPass*float64(perSecond)*(minRt/1e3)))
+		return int64(math.Max(1, maxPass*perSecond*(minRt/1e3)))
 	}
 	// one request of caller c: Allow, work for lat, report; false = rejected (or the run has failed)
 	request := func(c int, lat time.Duration, fail bool) bool {
